@@ -36,6 +36,12 @@ def kill_specs(ctx, jdir):
         for _ in range(rng.randint(1, 8)):
             p.append(rng.choice(frames) if rng.random() < 0.6 else rng.choice(sends))
         pres.append(p)
+    # outbound histories with a message that spells out PossDupFlag=N / carries its own OrigSendingTime (a ResendRequest
+    # as the event under test replays them)
+    from .c06 import RS as _RS
+    for extra in ([_RS("APP", "11=n1", pdn=True), app], [app, _RS("APP", "11=n2", pdn=True)], [_RS("APP", "11=o1|97=Y", ost0=True), app]):
+        pres.append([{"t": "attach"}, logon_in] + extra)
+        pres.append([{"t": "attach"}, logon_out, logon_in] + extra)
     cont = [{"t": "attach"}, logon_in, app, app]
     cont2 = [{"t": "attach"}, logon_out, logon_in, app]
     base = []
